@@ -23,6 +23,25 @@ def ranks_of(values):
 
 
 RANK = ranks_of(POOL)
+
+# map values: the model stores naturals; 0..3 stand for falsy / None-like Python objects (a value is any object)
+SPECIAL = {0: None, 1: 0, 2: "", 3: False}
+
+
+def pyv(code):
+    return SPECIAL.get(code, code)
+
+
+def codev(obj):
+    if obj is None:
+        return 0
+    if obj is False:
+        return 3
+    if obj == "" and isinstance(obj, str):
+        return 2
+    if obj == 0 and isinstance(obj, int):
+        return 1
+    return obj
 FOREIGN = ["a", None, (1, 2), "1"]
 
 
@@ -111,11 +130,15 @@ class Prop(SeqProp):
                 else:
                     args = []
                     for j in range(m):
-                        args += [pick(), j + 1]
+                        args += [pick(), rng.choice([0, 1, 2, 3, j + 10])]
                     steps.append(("init", args))
             vc = 100
             for _ in range(length):
                 vc += 1
+                if kind == "smap" and rng.random() < 0.25:
+                    vc_use = rng.choice([0, 1, 2, 3])   # None / 0 / '' / False as values
+                else:
+                    vc_use = vc
                 r = rng.random()
                 probe = (f"f{rng.randrange(len(FOREIGN))}" if rng.random() < 0.12 else pick())
                 if kind == "sset":
@@ -135,7 +158,7 @@ class Prop(SeqProp):
                         steps.append(("clear", []))
                 else:
                     if r < 0.3:
-                        steps.append(("set", [pick(), vc]))
+                        steps.append(("set", [pick(), vc_use]))
                     elif r < 0.33:
                         steps.append(("set", [f"f{rng.randrange(len(FOREIGN))}", vc]))
                     elif r < 0.45:
@@ -145,7 +168,7 @@ class Prop(SeqProp):
                     elif r < 0.57:
                         steps.append(("popitem", []))
                     elif r < 0.65:
-                        steps.append(("setdefault", [pick(), vc]))
+                        steps.append(("setdefault", [pick(), vc_use if rng.random() < 0.5 else vc]))
                     elif r < 0.72:
                         args = []
                         for j in range(rng.randint(0, 3)):
@@ -183,7 +206,7 @@ class Prop(SeqProp):
         def dump():
             if kind == "sset":
                 return "L:" + ",".join(r_of(x) for x in obj.values)
-            return "K:" + ",".join(r_of(x) for x in obj.keys_storage) + " V:" + ",".join(str(v) for v in obj.values_storage)
+            return "K:" + ",".join(r_of(x) for x in obj.keys_storage) + " V:" + ",".join(str(codev(v)) for v in obj.values_storage)
 
         for op, args in case.meta["impl"]:
             try:
@@ -208,29 +231,29 @@ class Prop(SeqProp):
                         r = "bad-op"
                 else:
                     if op == "init":
-                        pairs = [(self.val(args[i]), args[i + 1]) for i in range(0, len(args), 2)]
+                        pairs = [(self.val(args[i]), pyv(args[i + 1])) for i in range(0, len(args), 2)]
                         # alternate between the two initialiser forms the constructor accepts
                         obj = SortedMap(dict(pairs)) if len(pairs) % 2 == 1 else SortedMap(pairs); r = "ok"
                     elif op == "get":
-                        r = f"ret {obj[self.val(args[0])]}"
+                        r = f"ret {codev(obj[self.val(args[0])])}"
                     elif op == "has":
                         r = f"ret {1 if self.val(args[0]) in obj else 0}"
                     elif op == "set":
-                        obj[self.val(args[0])] = args[1]; r = "ok"
+                        obj[self.val(args[0])] = pyv(args[1]); r = "ok"
                     elif op == "del":
                         del obj[self.val(args[0])]; r = "ok"
                     elif op == "pop":
-                        r = f"ret {obj.pop(self.val(args[0]))}"
+                        r = f"ret {codev(obj.pop(self.val(args[0])))}"
                     elif op == "popitem":
-                        k, v = obj.popitem(); r = f"ret {r_of(k)}:{v}"
+                        k, v = obj.popitem(); r = f"ret {r_of(k)}:{codev(v)}"
                     elif op == "setdefault":
-                        r = f"ret {obj.setdefault(self.val(args[0]), args[1])}"
+                        r = f"ret {codev(obj.setdefault(self.val(args[0]), pyv(args[1])))}"
                     elif op == "update":
-                        obj.update([(self.val(args[i]), args[i + 1]) for i in range(0, len(args), 2)]); r = "ok"
+                        obj.update([(self.val(args[i]), pyv(args[i + 1])) for i in range(0, len(args), 2)]); r = "ok"
                     elif op == "len":
                         r = f"ret {len(obj)}"
                     elif op == "items":
-                        r = "ret " + ",".join(f"{r_of(k)}:{v}" for k, v in obj.items())
+                        r = "ret " + ",".join(f"{r_of(k)}:{codev(v)}" for k, v in obj.items())
                     else:
                         r = "bad-op"
             except BaseException as e:  # noqa
